@@ -124,6 +124,8 @@ class FnBounds:
                 bases.append(s)
             elif s[0] == "i" and f.insts[s[1]].op == "call" and f.insts[s[1]].callee == "__errno_location":
                 bases.append(s)
+            elif s[0] == "g":
+                bases.append(s)
         if len(bases) != 1 or lin[bases[0]] != 1:
             return None, None
         off = Lin(lin)
@@ -132,6 +134,11 @@ class FnBounds:
 
     def obj_size(self, base):
         f = self.f
+        if base[0] == "g":
+            for g_ in self.mod.globals:
+                if g_.get("name") == base[1] and not g_.get("declaration") and g_.get("size"):
+                    return Lin.const(int(g_["size"]))
+            return None
         if base[0] == "i":
             if f.insts[base[1]].op == "call":
                 return Lin.const(4)
@@ -758,6 +765,8 @@ class FnBounds:
         f = self.f
         if base[0] == "a":
             return "*" + f.params[base[1]]["name"]
+        if base[0] == "g":
+            return "global " + str(base[1])
         return "local " + (f.locals.get(base[1]) or f.insts[base[1]].get("name") or ("#%d" % base[1]))
 
     def run(self):
